@@ -7,6 +7,9 @@
   and a final `driver-summary` line.
 -/
 import CffVerif.Sched.Replay
+import CffVerif.Text.Check
+import CffVerif.Gen.Check
+import CffVerif.Gen.Denote
 
 open Sched Sched.Replay
 
@@ -43,6 +46,102 @@ partial def schedLoop (h : IO.FS.Stream) (a : DAcc) : IO DAcc := do
     | ["end"] => schedLoop h (← flush a)
     | _ => schedLoop h a
 
+structure TAcc where
+  lines : Nat := 0
+  checked : Nat := 0
+  diverged : Nat := 0
+  sawEnd : Bool := false
+
+partial def textLoop (h : IO.FS.Stream) (a : TAcc) : IO TAcc := do
+  let l ← h.getLine
+  if l.isEmpty then return a
+  else
+    let t := toks (l.trimRight)
+    let ds := Text.Check.checkLine t
+    let kind := t.getD 0 ""
+    let isCase := ["BT", "AL", "ES", "ES0", "ES1", "GF", "FS", "DT", "SM", "X"].contains kind
+    for d in ds do
+      IO.println s!"R {kind} div {d.1} :: {d.2}"
+    textLoop h { lines := a.lines + 1, checked := a.checked + (if isCase then 1 else 0),
+                 diverged := a.diverged + (if ds.isEmpty then 0 else 1), sawEnd := a.sawEnd || kind == "END" }
+
+/-! prog mode: harness/cmd/progrun output (harness/PROTOCOL.md) -/
+
+structure PAcc where
+  prog : Option Gen.Prog := none
+  known : Bool := false
+  accepted : Bool := false
+  sc : Option Gen.Scenario := none
+  obs : Gen.Check.Obs := {}
+  defaultConc : Nat := 4
+  programs : Nat := 0
+  scenarios : Nat := 0
+  checked : Nat := 0
+  diverged : Nat := 0
+  knownDiverged : Nat := 0
+  jobsOrdered : Nat := 0
+
+def reportDivs (a : PAcc) (sid : String) (ds : List (String × String)) : IO PAcc := do
+  match a.prog with
+  | none => return a
+  | some p =>
+    let tag := if a.known then "KDIV" else "DIV"
+    for d in ds do
+      IO.println s!"{tag} {p.pid} {sid} {p.stream} {d.1} :: {d.2}"
+    if ds.isEmpty then return a
+    else if a.known then return { a with knownDiverged := a.knownDiverged + 1 }
+    else return { a with diverged := a.diverged + 1 }
+
+partial def progLoop (h : IO.FS.Stream) (a : PAcc) : IO PAcc := do
+  let l ← h.getLine
+  if l.isEmpty then return a
+  else
+    let t := toks (l.trimRight)
+    match t with
+    | "progrun" :: rest =>
+      progLoop h { a with defaultConc := (Gen.kvN rest "defaultconc").getD 4 }
+    | ["prog", pid, kind] =>
+      progLoop h { a with prog := some { pid := (pid.toNat?).getD 0, kind := if kind == "par" then .par else .flow },
+                          known := false, accepted := false, sc := none, programs := a.programs + 1 }
+    | "P" :: _ =>
+      match a.prog with
+      | some p =>
+        let p' := p.addLine t
+        progLoop h { a with prog := some p', known := p'.stream.startsWith "known:" }
+      | none => progLoop h a
+    | "A" :: _ =>
+      match a.prog with
+      | some p =>
+        let ds := Gen.Check.checkAccept p t
+        -- the enqueue order of the generated jobs respects the dependencies (C02_topo_sound, executable check)
+        let ordered := p.kind == .par || !(Gen.validate p).isEmpty || Gen.depsBefore (Gen.genJobs p)
+        let ds := if ordered then ds else ds ++ [("topo", s!"pid {p.pid}: model's job order does not respect dependencies")]
+        let a ← reportDivs { a with accepted := t.getD 2 "" == "accept", checked := a.checked + 1,
+                                    jobsOrdered := a.jobsOrdered + (if ordered then 1 else 0) } "-" ds
+        progLoop h a
+      | none => progLoop h a
+    | "G" :: _ =>
+      match a.prog with
+      | some p =>
+        let a ← reportDivs { a with checked := a.checked + 1 } "-" (Gen.Check.checkStatic p t)
+        progLoop h a
+      | none => progLoop h a
+    | "S" :: _ =>
+      progLoop h { a with sc := some (Gen.parseScenario t), obs := {}, scenarios := a.scenarios + 1 }
+    | "O" :: _ :: _ :: rest =>
+      progLoop h { a with obs := a.obs.addLine rest }
+    | "E" :: _ :: sid :: _ =>
+      match a.prog, a.sc with
+      | some p, some sc =>
+        let ds := Gen.Check.checkScenario p sc a.defaultConc a.obs
+        -- no failing function, no fallback, no cancellation: the reference execution must equal the declarative denotation
+        let plain := p.kind == .flow && sc.cancel == "none" && sc.fn.all (fun x => x.2 == .ok) && sc.pred.all (fun x => x.2 != .panic)
+        let ds := if plain && !(Gen.idealAgreesWithDenote p sc) then ds ++ [("denote", s!"pid {p.pid}: reference execution differs from valueOf")] else ds
+        let a ← reportDivs { a with checked := a.checked + 1 } sid ds
+        progLoop h { a with sc := none }
+      | _, _ => progLoop h a
+    | _ => progLoop h a
+
 def main (args : List String) : IO UInt32 := do
   let stdin ← IO.getStdin
   match args with
@@ -50,6 +149,14 @@ def main (args : List String) : IO UInt32 := do
     let a ← schedLoop stdin {}
     IO.println s!"driver-summary scenarios={a.scenarios} diverged={a.diverged} events={a.events}"
     return 0
+  | ["text"] =>
+    let a ← textLoop stdin {}
+    IO.println s!"driver-summary lines={a.lines} checked={a.checked} diverged={a.diverged} complete={if a.sawEnd then 1 else 0}"
+    return 0
+  | ["prog"] =>
+    let a ← progLoop stdin {}
+    IO.println s!"driver-summary programs={a.programs} scenarios={a.scenarios} checked={a.checked} diverged={a.diverged} known_diverged={a.knownDiverged} jobs_ordered={a.jobsOrdered}"
+    return 0
   | _ =>
-    IO.eprintln "usage: driver sched"
+    IO.eprintln "usage: driver sched|text|prog"
     return 2
